@@ -131,7 +131,7 @@ class Expansion:
     role = "bounded check of macro expansion against gcc -E (never counted as proved)"
 
     def bound(self, tier):
-        n = 150 if tier == "quick" else 5000
+        n = 600 if tier == "quick" else 6000
         m = 250 if tier == "quick" else len(RESCAN_F) * len(RESCAN_A) * len(RESCAN_ID) * len(RESCAN_H) * len(RESCAN_INV)
         return (f"{n} seeded random (macro table, invocation) pairs: object- and function-like macros of <= 3 parameters, # and ##, "
                 "variadic, nested / parenthesised / empty arguments, direct, mutual and argument-borne recursion; "
@@ -140,7 +140,7 @@ class Expansion:
 
     def inputs(self, tier, seed):
         rng = random.Random(seed)
-        n = 150 if tier == "quick" else 5000
+        n = 600 if tier == "quick" else 6000
         for defs in tables(rng, n):
             yield {"defs": defs, "inv": invocations(rng)}
         allr = list(rescan_cases())
@@ -165,7 +165,12 @@ class Expansion:
         try:
             got = cbi_expand(inp["defs"], inp["inv"])
         except BaseException as e:            # noqa: BLE001
-            return {"expected": want, "observed": f"raised {type(e).__name__}: {e}", "klass": "expansion:" + feature(inp)}
+            kl = feature(inp)
+            if kl == "other" and isinstance(e, IndexError) and invalid_subcall(inp):
+                # the recorded finding: a call with too few arguments sits in an argument that is never expanded (an operand of
+                # # or ##), so the program is valid, but the argument is examined all the same
+                kl = "call-with-too-few-arguments-inside-an-argument"
+            return {"expected": want, "observed": f"raised {type(e).__name__}: {e}", "klass": "expansion:" + kl}
         if got != want_toks:
             kl = feature(inp)
             if kl == "other" and [x.replace(" ", "") for x in got] == [x.replace(" ", "") for x in want_toks]:
@@ -175,6 +180,20 @@ class Expansion:
                     kl = "stringified-variadic-arguments-lose-the-blank-before-a-comma"
             return {"expected": want_toks, "observed": got, "klass": "expansion:" + kl}
         return None
+
+
+def invalid_subcall(inp):
+    """does the invocation contain a macro call that gcc diagnoses when it stands alone (while the whole is valid)?"""
+    inv, subs = inp["inv"], []
+    for m in re.finditer(r"\b[A-Z]\s*\(", inv):
+        depth, j = 0, m.end() - 1
+        for j in range(m.end() - 1, len(inv)):
+            depth += {"(": 1, ")": -1}.get(inv[j], 0)
+            if depth == 0:
+                break
+        if depth == 0 and inv[m.start():j + 1] != inv.strip():
+            subs.append(inv[m.start():j + 1])
+    return any(o is None for o in gcc_expand([(inp["defs"], x) for x in subs]))
 
 
 def feature(inp):
